@@ -4,12 +4,19 @@
    Specification: Spec/C10.v (RFC 1001 14.1, RFC 1002 4.2, written independently of the code);
    Spec/C10View.v says how library values are read as RFC content and which packets are legitimate. *)
 From Coq Require Import List NArith Lia.
-From Mant Require Import Prim.R Prim.Bytes Model.NbName Model.NbPacket Spec.C10 Spec.C10View
+From Mant Require Import Prim.R Prim.Bytes Gen.ConstsC10 Model.NbName Model.NbPacket Spec.C10 Spec.C10View
   Proofs.C10Name Proofs.C10Spec Proofs.C10Packet Proofs.C10Total Proofs.C10Extra.
 Import ListNotations.
 Open Scope N_scope.
 
 (* ------------------------------------------------------------------ first-level encoding *)
+
+(* The constants the model takes from name.go (regenerated from the source by go2coq on every run)
+   are the RFC's: 16-byte names, 32 encoded characters, 'A'. *)
+Theorem C10_source_constants :
+  c10_NetBIOSNameLength = 16 /\ c10_EncodedNameLength = 32 /\ c10_ASCII_A = 65.
+Proof. exact source_constants. Qed.
+Print Assumptions C10_source_constants.
 
 (* For each of the 256 byte values: the library's shift-and-mask encoding of the byte is the two
    characters RFC 1001 14.1 prescribes ('A' + high nibble, 'A' + low nibble, both in 'A'..'P'), and the
@@ -210,3 +217,20 @@ Proof.
     split; (apply Forall_cons; [simpl; lia|apply Forall_nil]).
   - eexists. split; [vm_compute; reflexivity|]. split; vm_compute; reflexivity.
 Qed.
+
+(* The reader of the specification is a full RFC 1002 reader: it follows compressed-name pointers.
+   A registration request as standard senders write it (RR_NAME = pointer 0xC00C to the question name)
+   is read to a record carrying the question's name.  The library does not read such packets
+   (readName refuses label types other than 00) — outside C10's statement, recorded here. *)
+Definition C10_compressed_registration : list N :=
+  [0; 1; 41; 16; 0; 1; 0; 0; 0; 0; 0; 1;
+   32; 69; 71; 70; 67; 69; 70; 69; 69; 67; 65; 67; 65; 67; 65; 67; 65; 67; 65; 67; 65; 67; 65; 67; 65;
+       67; 65; 67; 65; 67; 65; 67; 65; 0;  0; 32; 0; 1;
+   192; 12;  0; 32; 0; 1;  0; 0; 0; 60;  0; 6;  0; 0; 10; 0; 0; 1].
+
+Example C10_rfc_reader_follows_pointers :
+  let fred := mk_rname [70; 82; 69; 68; 32; 32; 32; 32; 32; 32; 32; 32; 32; 32; 32; 32] [] in
+  rfc1002_parse C10_compressed_registration
+  = Some (mk_rpkt 1 10512 [mk_rq fred 32 1] [] [] [mk_rrr fred 32 1 60 [0; 0; 10; 0; 0; 1]], [])
+  /\ unmarshal C10_compressed_registration = Err.
+Proof. split; vm_compute; reflexivity. Qed.
